@@ -374,10 +374,13 @@ def index_types(ctx):
     float whole numbers, lists), the indices handed to the per-plane helper are of the default integer type on every path"""
     fn = ctx.fn(MIL, 'plane_crystal_to_cartesian')
     fl = dtypeflow.DtypeFlow(fn)
-    sites = [c for c in calls_in(fn) if norm(c.func) in ('np.apply_along_axis', 'numpy.apply_along_axis') and len(c.args) >= 3]
+    def _arr_arg(c):
+        kw = {k.arg: k.value for k in c.keywords if k.arg}
+        return c.args[2] if len(c.args) >= 3 else kw.get('arr')
+    sites = [c for c in calls_in(fn) if norm(c.func) in ('np.apply_along_axis', 'numpy.apply_along_axis') and _arr_arg(c) is not None]
     ctx.need(len(sites) >= 1, 'plane_crystal_to_cartesian no longer applies a per-plane helper along the last axis')
     for c in sites:
-        a = c.args[2]
+        a = _arr_arg(c)
         t = fl.uses.get(id(a)) if isinstance(a, ast.Name) else fl.ev(a, fl.final)
         ctx.need(t is not None, 'element type of %s at the per-plane call is not decided' % norm(a))
         other = [x for x in t if x != dtypeflow.INT and x not in dtypeflow.undecided(t)]
